@@ -7,7 +7,12 @@
    Stage B: every terminal state is emitted (Emit, a PrintT line <<"S", pk, w, verdict, why, taken>>)
    together with the letter table (IOEnv.C07_TAB: schema, letters, the value each letter parses
    to); harness/props/c07.py serialises each sequence with the strict writer and runs the real
-   decoder on it.                                                                           *)
+   decoder on it.
+   HISTORIES.  Init starts EVERY case from InitSt(schema): the machine has no variable that survives a
+   packet, so the expectation emitted for a sequence holds whatever the decoder has been given before.
+   The harness replays a sample of the emitted sequences in fresh interpreters in several orders
+   (irregular sequences - Irregular below - first and the regular ones last; reversed; shuffled) and
+   compares every answer with the same emitted expectation.                                   *)
 EXTENDS TlvModelScan, TlvModelPackets, Json, IOUtils
 CONSTANTS MaxLen, Lvl, Pks
 
@@ -32,6 +37,10 @@ ExtractEqual        == (Terminal /\ Verdict(c.pk, st) = "accept") => st.out = Ex
 RejectHasReason     == (Terminal /\ Verdict(c.pk, st) = "reject") => Why(c.pk, st) # ""
 Emit == Terminal => PrintT(<<"S", c.pk, c.w, Verdict(c.pk, st), Why(c.pk, st), st.taken,
                              IF Verdict(c.pk, st) = "accept" THEN Ptrs(c.pk, Inp, st) ELSE Ptrs("none", Inp, st)>>)
+
+\* a sequence the machine rejects, or in which it leaves an element untaken (unknown, repeated, out of order): what a
+\* history puts FIRST (the harness derives the same from the emitted verdict and taken list)
+Irregular == Terminal /\ (Verdict(c.pk, st) # "accept" \/ Len(st.taken) < Len(Inp))
 
 \* Name.from_bytes: accept <=> every component lies inside the Name; the components are the kids
 NameSeqs == LetterSeqs(Len(AlphaOf("name", Lvl)), Len(TailOf("name", Lvl)), MaxLen + 1)
